@@ -30,3 +30,21 @@ Definition all_done (x : st) : Prop :=
   hp s = H_done /\ (sp s = S_none \/ sp s = S_done) /\ ip s = I_done /\ msp s = MS_done /\ mrp s = MR_done /\
   (fp s = F_none \/ fp s = F_done) /\ lp s = LA_none /\ (g1 s = G_none \/ g1 s = G_done) /\ (g2 s = G_none \/ g2 s = G_done) /\
   own s = O_done /\ ts s = TClosed /\ r_closed s = true /\ stopped s = true /\ force_armed s = false /\ la_armed s = false.
+
+(* ---------------------------------------------------------------- frame numbering of the tube sender
+   (tubes/sender.go write / sendFin, both under Reliable.l): every data frame takes s.frameNo and
+   increments it; sendFin takes s.frameNo for the FIN, increments it, and sets finSent, after which
+   write refuses.  Sequential (all under the lock), any sequence of calls. *)
+Open Scope N_scope.
+Inductive sop := SWrite (nframes : nat) | SFin.
+Record snd := mkSnd { frameNo : N; finSent : bool; finNo : N; datas : list N }.
+Definition snd_init : snd := mkSnd 1 false 0 [].
+Fixpoint push_frames (n : nat) (f : N) (l : list N) : N * list N :=
+  match n with O => (f, l) | S n' => push_frames n' (f + 1) (l ++ [f]) end.
+Definition snd_step (s : snd) (o : sop) : snd :=
+  match o with
+  | SWrite n => if finSent s then s
+                else let '(f, l) := push_frames n (frameNo s) (datas s) in mkSnd f false (finNo s) l
+  | SFin => if finSent s then s else mkSnd (frameNo s + 1) true (frameNo s) (datas s)
+  end.
+Definition snd_run (l : list sop) : snd := fold_left snd_step l snd_init.
